@@ -70,7 +70,7 @@ theorem decode_encode_at_sorted (kvs : List (Bytes × KVal)) (ts : List TIn) (fi
   obtain ⟨H, hHd⟩ : ∃ H, H = head.length := ⟨_, rfl⟩
   have hfile : file = head ++ encData align ts H := by
     unfold encode at henc
-    simp only [halign, bind, Except.bind] at henc
+    simp only [writerAlignment_lenient _ _ halign, bind, Except.bind] at henc
     split at henc
     · cases henc
     · simp only [pure, Except.pure] at henc
@@ -150,7 +150,7 @@ theorem decode_written_at (file tail : Bytes) (align p : Nat) (maxArraySize : In
   obtain ⟨head, hheadd⟩ : ∃ head, head = encHead false align kvs ts := ⟨_, rfl⟩
   have hfile : file = head ++ encData align ts head.length := by
     unfold encode at henc
-    simp only [halign, bind, Except.bind] at henc
+    simp only [writerAlignment_lenient _ _ halign, bind, Except.bind] at henc
     split at henc
     · cases henc
     · simp only [pure, Except.pure] at henc
